@@ -296,16 +296,34 @@ def metadata_rules(ctx, rep, R):
     rep.require(R, "restore_metadata/sites", len(sm_calls) >= 3 and len(pushes) == 1 and len(pops) >= 1, where=RM_.loc(), what=f"restore_metadata applies metadata at {len(sm_calls)} sites, defers directories with one push, pops finished ones")
     if len(sm_calls) >= 3 and len(pushes) == 1:
         # the node-kind switch
-        sws = [bi for bi in range(len(RM_.blocks)) if RM_.term(bi)["k"] == "switch" and "node_type" in repr(flow.expr_of(RM_, RM_.term(bi)["discr"], bi)) or
-               (RM_.term(bi)["k"] == "switch" and any(s_[0] == "=" and s_[2][0] == "discr" and place_has_field(s_[2][1], "node_type") for s_ in RM_.blocks[bi]["s"]))]
+        # the node-kind test: a `match node.node_type` or a (possibly negated) `node.is_dir()` test
+        dirv = str([v["discr"] for v in prog.adt("backend::node::NodeType")["variants"] if v["name"] == "Dir"][0])
+        kind_sw = []
+        for bi in range(len(RM_.blocks)):
+            tt = RM_.term(bi)
+            if tt["k"] != "switch":
+                continue
+            if any(s_[0] == "=" and s_[2][0] == "discr" and place_has_field(s_[2][1], "node_type") for s_ in RM_.blocks[bi]["s"]) or ("node_type" in repr(flow.expr_of(RM_, tt["discr"], bi)) and tt["discr_ty"] != "bool"):
+                d_ = [x for v, x in tt["targets"] if v == dirv]
+                kind_sw.append((bi, d_[0] if d_ else tt["otherwise"], [x for x in RM_.succ(bi) if not d_ or x != d_[0]]))
+            elif tt["discr_ty"] == "bool":
+                e_ = flow.expr_of(RM_, tt["discr"], bi)
+                neg_ = False
+                while e_[0] == "un" and e_[1] == "Not":
+                    neg_ = not neg_
+                    e_ = e_[2]
+                if e_[0] == "call" and e_[1].endswith("node::Node::is_dir"):
+                    zero_ = [x for v, x in tt["targets"] if v == "0"]
+                    if zero_:
+                        t_true, t_false = tt["otherwise"], zero_[0]
+                        kind_sw.append((bi, t_false if neg_ else t_true, [t_true if neg_ else t_false]))
+        sws = [x[0] for x in kind_sw]
         okk = False
         okd = False
         if sws:
-            sw = sws[0]
+            sw, dir_first, other_t = kind_sw[0]
+            dir_t = [dir_first]
             t = RM_.term(sw)
-            dirv = str([v["discr"] for v in prog.adt("backend::node::NodeType")["variants"] if v["name"] == "Dir"][0])
-            dir_t = [x for v, x in t["targets"] if v == dirv]
-            other_t = [x for x in RM_.succ(sw) if not dir_t or x != dir_t[0]]
             backs = C.back_edges(RM_)
             loops = [(h, C.loop_blocks(RM_, h, l)) for (l, h) in backs]
             inner = sorted([(h, bl) for (h, bl) in loops if sw in bl], key=lambda x: len(x[1]))
